@@ -45,6 +45,7 @@ type Entry struct {
 	Msg    string            `json:"msg"`    // hex
 	Val    string            `json:"val"`    // float64 in %x form
 	Err    string            `json:"err"`    // "" | "eof" | "err" | "panic"
+	EMsg   string            `json:"emsg,omitempty"`
 }
 
 type Stage struct {
@@ -193,6 +194,12 @@ func toEntry(e *shared.LogEntry) Entry {
 		r.Err = "panic"
 	default:
 		r.Err = "err"
+	}
+	if e.Err != nil && e.Err != io.EOF {
+		r.EMsg = e.Err.Error()
+		if len(r.EMsg) > 120 {
+			r.EMsg = r.EMsg[:120]
+		}
 	}
 	return r
 }
@@ -408,6 +415,7 @@ func canon(bs [][]Entry) Out {
 			if e.Err != "" {
 				if o.Err == "" {
 					o.Err = e.Err
+					o.ErrMsg = e.EMsg
 				}
 				continue
 			}
@@ -756,8 +764,11 @@ func runCase(c *Case) {
 		if fin == nil {
 			c.Pipelined = "missing"
 		} else {
-			a, _ := json.Marshal(c.Out)
-			b, _ := json.Marshal(*fin)
+			// the error text is not compared: the stage-by-stage replay re-creates error entries from their kind only
+			x, y := c.Out, *fin
+			x.ErrMsg, y.ErrMsg = "", ""
+			a, _ := json.Marshal(x)
+			b, _ := json.Marshal(y)
 			if string(a) == string(b) {
 				c.Pipelined = "equal"
 			} else {
@@ -1475,6 +1486,42 @@ func split(r *rand.Rand, es []Entry) [][]Entry {
 	return bs
 }
 
+// genManySeries: n series of one entry each (foreign fingerprints 1..n, one shared label set) under a range aggregation
+func genManySeries(id int, n int) Case {
+	c := Case{ID: id, Class: fmt.Sprintf("series%d", n), Limit: 0}
+	c.Query = `count_over_time({app="x"} | line_format "x" [10s])`
+	c.From = int64(1700000000) * 1e9
+	c.To = c.From + 10*1e9
+	var es []Entry
+	for i := 1; i <= n; i++ {
+		es = append(es, Entry{TS: c.From + int64(i%10)*1e9, FP: uint64(i), Labels: map[string]string{"app": "x"}, Msg: hx.Hex("m"), Val: fhex(0)})
+	}
+	es = append(es, Entry{Err: "eof", Val: fhex(0)})
+	for i := 0; i < len(es); i += 100 {
+		j := i + 100
+		if j > len(es) {
+			j = len(es)
+		}
+		c.In = append(c.In, es[i:j])
+	}
+	return c
+}
+
+// genRefused: queries whose in-process part the planner refuses (topk / quantile_over_time over a split pipeline)
+func genRefused(r *rand.Rand, id int) Case {
+	c := Case{ID: id, Class: "refused", Limit: 10}
+	c.Query = pick(r, []string{
+		`topk(2, rate({app="x"} | json [1m]))`,
+		`bottomk(1, sum by (app) (count_over_time({app="x"} | logfmt [1m])))`,
+		`quantile_over_time(0.5, {app="x"} | json | unwrap n [1m])`,
+		`quantile_over_time(0.9, {app="x"} | line_format "{{.a}}" | unwrap _entry [1m]) by (app)`,
+	})
+	c.From = int64(1700000000) * 1e9
+	c.To = c.From + 60*1e9
+	c.In = [][]Entry{{{TS: c.From + 1e9, FP: 7, Labels: map[string]string{"app": "x"}, Msg: hx.Hex(`{"n":1}`), Val: fhex(0)}, {Err: "eof", Val: fhex(0)}}}
+	return c
+}
+
 func genFPCase(r *rand.Rand, id int) Case {
 	c := Case{ID: id, Mode: "fp", Class: "fp"}
 	c.FPLabels = map[string]string{}
@@ -1546,9 +1593,15 @@ func main() {
 	pl := mkPools(r, f.N)
 	for i := 0; i < f.N; i++ {
 		var c Case
-		if i%10 == 9 {
+		switch {
+		case i%10 == 9:
 			c = genFPCase(r, i)
-		} else {
+		case i == 50 || (i == 51 && f.N >= 5000):
+			// the 2000-series limit of the aggregators: 2001 series are refused, 2000 (thorough tier) are not
+			c = genManySeries(i, 2051-i)
+		case i%100 == 37:
+			c = genRefused(r, i)
+		default:
 			c = genCase(r, i, pl)
 		}
 		run(&c)
